@@ -117,6 +117,16 @@ def build_sqlite(g, d, name='m', use_latlon=False, how='bulk', **kw):
         m.add_edges(edges[:h2])
         if edges[h2:]:
             m.add_edges(edges[h2:])
+    elif how == 'nocommit-then-duplicate':
+        # everything with a deferred commit; the call that finally commits is a single add_edge of an edge that is already there
+        for k, p in nodes:
+            m.add_node(k, p, no_commit=True)
+        for a, b in edges:
+            m.add_edge(a, b, no_commit=True)
+        if edges:
+            m.add_edge(*edges[-1])
+        else:
+            m.db.commit()
     elif how == 'bulk-noindex-last':
         # the last writing operation is a bulk insert without indexing (neighbour queries see the edges, box queries do not)
         m.add_nodes(nodes)
@@ -385,7 +395,7 @@ def case_C12(seed):
             k1 = set(keys) if seed % 2 == 0 else set(keys[:max(2, len(keys) // 2)])
             sub = {k: (g[k][0], [b for b in g[k][1] if b in k1][:(1 if seed % 2 == 0 else 99)]) for k in keys if k in k1}
             im = InMemMap('im', use_latlon=use_latlon, use_rtree=False, graph=copy.deepcopy(sub))
-            sm, edges1 = build_sqlite(sub, d, use_latlon=use_latlon, how=how)
+            sm, edges1 = build_sqlite(sub, d, name=('m.v1' if seed % 4 == 2 else 'm'), use_latlon=use_latlon, how=how)
             b0 = [(min(ys), min(xs), max(ys), max(xs))]
             for mp_ in (im, sm):
                 with contextlib.redirect_stdout(io.StringIO()):
@@ -405,12 +415,19 @@ def case_C12(seed):
                         sm.add_edge(a, b)
         else:
             im = InMemMap('im', use_latlon=use_latlon, use_rtree=False, graph=copy.deepcopy(g))
-            sm, edges = build_sqlite(g, d, use_latlon=use_latlon, how=how)
+            sm, edges = build_sqlite(g, d, name=('m.v1' if seed % 4 == 2 else 'm'), use_latlon=use_latlon, how=how)
         boxes = []
         for _ in range(2):
             y0, y1 = sorted([rnd.choice(ys), rnd.choice(ys) + rnd.choice([0, 1e-3 if use_latlon else 0.75])])
             x0, x1 = sorted([rnd.choice(xs), rnd.choice(xs) + rnd.choice([0, 1e-3 if use_latlon else 0.75])])
             boxes.append((y0, x0, y1, x1))
+        if seed % 4 == 2:
+            # another map with a sibling name is created in the same directory while this one is in use
+            from leuvenmapmatching.map.sqlite import SqliteMap
+            other = SqliteMap('m.v2', use_latlon=use_latlon, dir=d)
+            other.add_node(987654, (ys[0] + 7, xs[0] + 7))
+            other.add_node(987655, (ys[0] + 8, xs[0] + 7))
+            other.add_edge(987654, 987655)
         sa = accessor_snapshot(im, g, boxes, [])
         sb = accessor_snapshot(sm, g, boxes, [])
         # in-memory neighbour listing keeps duplicates of the neighbour list; compare as sets of moves
@@ -456,7 +473,7 @@ def case_C18(seed):
     viol = []
     how = rnd.choice(['bulk', 'single', 'deferred', 'mixed', 'bulk-noindex-last'])
     if seed % 5 == 3:
-        how = ['import', 'bulk2'][(seed // 5) % 2]
+        how = ['import', 'bulk2', 'nocommit-then-duplicate'][(seed // 5) % 3]
     crs = rnd.choice([{}, {}, {'crs_lonlat': 'EPSG:4258', 'crs_xy': 'EPSG:31370'}])
     cycles = rnd.choice([1, 2, 3])
     try:
